@@ -67,6 +67,8 @@ impl Reorg {
 
     Index::increment_statistic(&wtx, Statistic::Commits, 1)?;
     wtx.commit()?;
+    #[cfg(ordinals_ord_verif)]
+    crate::verif::sched::crash_point("commit");
 
     log::info!(
       "successfully rolled back database to height {}",
@@ -127,6 +129,8 @@ impl Reorg {
 
       Index::increment_statistic(&wtx, Statistic::Commits, 1)?;
       wtx.commit()?;
+      #[cfg(ordinals_ord_verif)]
+      crate::verif::sched::crash_point("commit");
 
       let wtx = index.begin_write()?;
 
@@ -140,6 +144,8 @@ impl Reorg {
 
       Index::increment_statistic(&wtx, Statistic::Commits, 1)?;
       wtx.commit()?;
+      #[cfg(ordinals_ord_verif)]
+      crate::verif::sched::crash_point("commit");
     }
 
     Ok(())
